@@ -398,7 +398,10 @@ def signature_verify(uid=None, params=None, data=b'', signature=b''):
 
 
 def mac(uid=None, params=None, data=b''):
-    return (OP.MAC, payloads.MACRequestPayload(unique_identifier=uid, cryptographic_parameters=params, data=data))
+    return (OP.MAC, payloads.MACRequestPayload(
+        unique_identifier=(cattrs.UniqueIdentifier(uid) if uid is not None else None),
+        cryptographic_parameters=params,
+        data=(cobjects.Data(data) if data is not None else None)))
 
 
 def derive_key(uids, method=enums.DerivationMethod.HASH, params=None, attrs=None, otype=OT.SYMMETRIC_KEY):
